@@ -73,7 +73,7 @@ func (e *c20Engine) ID() string { return "C20" }
 
 func (e *c20Engine) Describe() kit.Description {
 	return kit.Description{
-		Rule: "one run = k real goroutines (k 2..4 mostly, up to 32) issuing drawn operation lists on one shared bloom.Filter (kinds: linearizability run / block-scan composite run) or one shared gcs.Filter, under a seeded scheduler that decides who runs at every simulation point (drawn site subset and policy per run), with the race detector on; non-trivial = operations of at least two tasks overlap in scheduler steps and (bloom kinds) at least one overlapping operation writes; distinct = distinct FNV-64 signature of (operation lists, sequence of (task, site, next task) decisions)",
+		Rule: "one run = k real goroutines (k 2..4 mostly, up to 32; GCS up to 100) issuing drawn operation lists on one shared bloom.Filter (kinds: linearizability run, optionally with a bystander task on a private second filter or a long reload storm / block-scan composite run) or one shared gcs.Filter (built or deserialised, warm or first used concurrently), under a seeded scheduler that decides who runs at every simulation point (hand-placed hooks plus a point before every statement of every package of the scratch copy; drawn site subset, density and policy per run), with the race detector on; non-trivial = operations of at least two tasks overlap in scheduler steps and (bloom kinds) at least one overlapping operation writes; distinct = distinct FNV-64 signature of (operation lists, sequence of (task, site, next task) decisions)",
 		RealVsStub: map[string]string{
 			"bloom.Filter, bloom.GetMatchedIndices, bloom.NewMerkleBlock, gcs.Filter, bchutil.Tx/Block": "real (from /repo working tree, built with -race -tags verif)",
 			"sync.Mutex, Go runtime, race detector":                                                     "real",
